@@ -143,6 +143,28 @@ func solveOne(ob *Obligation, prelude string, gax []string, opts solveOpts) {
 		ob.Result, ob.Solver = "unsat", "trivial"
 		return
 	}
+	if ob.Kind == "rec-progress" {
+		// optional obligations (progress before a recursive call): a short attempt by two solvers is all they get;
+		// the ones that hold are simple arithmetic, the others would only burn the time limit
+		q := ob.query(prelude, gax)
+		file := filepath.Join(opts.dir, slug(ob.Name)+".smt2")
+		if err := os.WriteFile(file, []byte(q), 0o644); err != nil {
+			ob.Result = "error"
+			return
+		}
+		ob.File = file
+		ob.Result = "unknown"
+		for _, sp := range solvers[:2] {
+			st, out, dur := runSolver(sp, file, 4)
+			ob.TimeS += dur
+			ob.Raw[sp.name] = fmt.Sprintf("%s (%.2fs) %s", st, dur, trunc(strings.TrimSpace(out), 100))
+			if st == "unsat" || st == "sat" {
+				ob.Result, ob.Solver = st, sp.name
+				break
+			}
+		}
+		return
+	}
 	if ob.isFrame() && ob.Expect == "unsat" {
 		lq := ob.queryWith(prelude, gax, true)
 		lfile := filepath.Join(opts.dir, slug(ob.Name)+".lean.smt2")
